@@ -1,5 +1,6 @@
 -- REGENERATED from src/build/incrementality.go, src/core/build_target.go, src/core/build_label.go by /verif/harness/extract/c07 on every run. Do not edit.
 namespace PlzVerif.Generated.C07
+def unprefixedAliases : Bool := false
 def mapRanges : List (String × String × String) := [
   ("ruleHash", "target.Provides", "sorted"),
   ("hashMap", "eps", "sorted"),
